@@ -135,3 +135,47 @@ def compare(res, ref, tol_rel=1e-9):
         d = np.where(np.isnan(d), 1.0, d)
         worst = max(worst, int(min(1e9, round(float(np.max(d)) * 1e9))))
     return worst
+
+
+def batch_task(args):
+    """batch independence for one class / parameter set: a shuffled request with a duplicate
+    and the documented edge points, against one-point requests (fresh objects)."""
+    name, alt, seed = args
+    import random
+    reg = registry.registry()
+    sp = reg[name]
+    out = {"cls": name, "cfg": 2 if alt else 1, "dev": 0, "raised": False, "points": 0, "worst": None}
+    try:
+        pts = list(sp.request(5)) + list(sp.edges)
+        rng = random.Random(seed * 31 + len(name))
+        pts = pts + [pts[1]]
+        rng.shuffle(pts)
+        with warnings.catch_warnings():
+            warnings.simplefilter("ignore")
+            with np.errstate(all="ignore"), contextlib.redirect_stdout(io.StringIO()):
+                big = sp.build(alt=alt)(sp.as_array(pts), sp.t)
+                worst = 0
+                for i, p in enumerate(pts):
+                    try:
+                        one = sp.build(alt=alt)(sp.as_array([p]), sp.t)
+                    except Exception:
+                        out["solo_raised"] = out.get("solo_raised", 0) + 1   # e.g. a validity domain tied to max(x): not comparable
+                        continue
+                    for nm in big.dtype.names:
+                        a = np.asarray(big[nm])
+                        if a.dtype.kind != "f":
+                            if str(a[i]) != str(np.asarray(one[nm])[0]):
+                                worst = 10**9; out["worst"] = [nm, repr(p), str(a[i]), str(np.asarray(one[nm])[0])]
+                            continue
+                        x, y = float(a[i]), float(np.asarray(one[nm])[0])
+                        if x == y or (x != x and y != y):
+                            continue
+                        scale = float(np.nanmax(np.abs(a))) if np.any(np.isfinite(a)) else 0.0
+                        d = abs(x - y) / max(abs(x), abs(y), 1e-6 * scale, 1e-300) if (x == x and y == y) else 1.0
+                        dv = int(min(1e9, round(d * 1e9)))
+                        if dv > worst:
+                            worst = dv; out["worst"] = [nm, repr(p), x, y]
+                out["dev"] = worst; out["points"] = len(pts)
+    except Exception as ex:
+        out["raised"] = True; out["error"] = type(ex).__name__ + ": " + str(ex)[:200]
+    return out
